@@ -9,13 +9,14 @@
 //
 //	H <replicas> | <op> | <op> | ...
 //
-// ops (k = key name, down = digits of unreachable replicas or "-"):
+// ops (k = key "group/name/id" — groups g0,g1, names p0,p1, ids shared on purpose; a key without '/' is g0/p0/<k>;
+// down = digits of unreachable replicas or "-"):
 //
 //	A k M|R tags ts down     propertyServer.Apply (wall clock; ts is the logical clock the output is mapped to)
 //	T k M|R tags ts down     Apply body with the clock injected (= ts)
 //	D k down                 propertyServer.Delete
 //	Q down rr                propertyServer.Query (no order) of all keys of the case; rr=1 runs the queued read repairs, rr=0 drops them
-//	O tag a|d down           propertyServer.Query ordered by tag
+//	O name tag a|d down      propertyServer.Query of the keys with that property name, ordered by tag
 //	R src dst k              one-way repair: src's latest document of k -> shard.repair on dst
 //	G cl sv k                one gossip exchange about leaf k between client cl and server sv
 //	M a b                    Merkle trees of a and b: equal roots?  (and: equal latest states?)
@@ -59,17 +60,28 @@ import (
 	"github.com/apache/skywalking-banyandb/pkg/logger"
 )
 
-const (
-	group    = "g"
-	propName = "p"
-	maxRep   = 3
+const maxRep = 3
+
+// keys are triples group/name/id ("g0/p1/x"); a key without '/' is id in group g0, name p0. Groups, names and ids
+// are shared deliberately: one shard (0) per group holds every name of the group.
+var (
+	allGroups = []string{"g0", "g1"}
+	allNames  = []string{"p0", "p1"}
 )
+
+func splitKey(k string) (g, n, id string) {
+	p := strings.SplitN(k, "/", 3)
+	if len(p) == 3 {
+		return p[0], p[1], p[2]
+	}
+	return allGroups[0], allNames[0], k
+}
 
 var schemaTags = []string{"a", "b", "c", "d"}
 
 type replica struct {
 	db        propertydb.Database
-	shard     *propertydb.VerifC18Shard
+	shards    map[string]*propertydb.VerifC18Shard // by group
 	listeners map[bus.Topic]bus.MessageListener
 	name      string
 }
@@ -146,7 +158,7 @@ func (h *harness) server(n int) *lgrpc.VerifC18Server {
 	for i := 0; i < n; i++ {
 		names[i] = h.reps[i].name
 	}
-	s := lgrpc.NewVerifC18Server(h.client, names, group, propName, schemaTags)
+	s := lgrpc.NewVerifC18Server(h.client, names, allGroups, allNames, schemaTags)
 	h.servers[n] = s
 	return s
 }
@@ -162,12 +174,16 @@ func newHarness() *harness {
 		if err != nil {
 			panic(err)
 		}
-		sh, err := propertydb.VerifC18LoadShard(d, group, 0)
-		if err != nil {
-			panic(err)
+		shards := map[string]*propertydb.VerifC18Shard{}
+		for _, g := range allGroups {
+			sh, lerr := propertydb.VerifC18LoadShard(d, g, 0)
+			if lerr != nil {
+				panic(lerr)
+			}
+			shards[g] = sh
 		}
 		name := fmt.Sprintf("n%d", i)
-		h.reps = append(h.reps, &replica{db: d, shard: sh, name: name, listeners: property.VerifC18Listeners(d, name)})
+		h.reps = append(h.reps, &replica{db: d, shards: shards, name: name, listeners: property.VerifC18Listeners(d, name)})
 	}
 	h.client = &fakeClient{reps: h.reps, nrep: maxRep, down: map[int]bool{}}
 	return h
@@ -188,7 +204,22 @@ type caseCtx struct {
 	nrep   int
 }
 
-func (c *caseCtx) id(k string) string { c.keys[k] = true; return c.prefix + k }
+// key registers k and returns its group, name and (case-prefixed) id.
+func (c *caseCtx) key(k string) (string, string, string) {
+	c.keys[k] = true
+	g, n, id := splitKey(k)
+	return g, n, c.prefix + id
+}
+
+func (c *caseCtx) docs(i int, k string) ([]*propertydb.VerifC18Doc, error) {
+	g, n, id := splitKey(k)
+	return c.h.reps[i].shards[g].Docs(g, n, c.prefix+id)
+}
+
+func (c *caseCtx) latest(i int, k string) (*propertydb.VerifC18Doc, error) {
+	g, n, id := splitKey(k)
+	return c.h.reps[i].shards[g].Latest(g, n, c.prefix+id)
+}
 
 func (c *caseCtx) rev(raw int64) string {
 	if v, ok := c.revMap[raw]; ok {
@@ -254,7 +285,7 @@ func (c *caseCtx) sortedKeys() []string {
 // learn the raw revisions written by a wall-clock Apply: every revision of key k not seen before is this op's ts.
 func (c *caseCtx) learn(k string, ts int64) {
 	for i := 0; i < c.nrep; i++ {
-		docs, err := c.h.reps[i].shard.Docs(group, propName, c.prefix+k)
+		docs, err := c.docs(i, k)
 		if err != nil {
 			continue
 		}
@@ -271,7 +302,7 @@ func (c *caseCtx) state() string {
 	for i := 0; i < c.nrep; i++ {
 		var ks []string
 		for _, k := range c.sortedKeys() {
-			docs, err := c.h.reps[i].shard.Docs(group, propName, c.prefix+k)
+			docs, err := c.docs(i, k)
 			if err != nil {
 				ks = append(ks, k+"=ERR")
 				continue
@@ -298,6 +329,9 @@ func (c *caseCtx) showQuery(resp *propertyv1.QueryResponse, keepOrder bool) stri
 	var parts []string
 	for _, p := range resp.Properties {
 		k := strings.TrimPrefix(p.Id, c.prefix)
+		if !(p.Metadata.Group == allGroups[0] && p.Metadata.Name == allNames[0] && c.keys[k]) {
+			k = p.Metadata.Group + "/" + p.Metadata.Name + "/" + k
+		}
 		parts = append(parts, fmt.Sprintf("%s=%s/%s/%s", k, c.rev(p.Metadata.ModRevision), c.rev(p.Metadata.CreateRevision), showTags(p.Tags)))
 	}
 	if !keepOrder {
@@ -309,12 +343,42 @@ func (c *caseCtx) showQuery(resp *propertyv1.QueryResponse, keepOrder bool) stri
 	return strings.Join(parts, ";")
 }
 
-func (c *caseCtx) ids() []string {
-	var ids []string
+// queries: one QueryRequest carries one name; the keys of the case are covered by one request per name
+// (groups and ids of the registered keys with that name; unregistered combinations have no documents).
+func (c *caseCtx) requests(only string) []*propertyv1.QueryRequest {
+	byName := map[string][2]map[string]bool{}
 	for _, k := range c.sortedKeys() {
-		ids = append(ids, c.prefix+k)
+		g, n, id := splitKey(k)
+		if only != "" && n != only {
+			continue
+		}
+		e, ok := byName[n]
+		if !ok {
+			e = [2]map[string]bool{{}, {}}
+			byName[n] = e
+		}
+		e[0][g] = true
+		e[1][c.prefix+id] = true
 	}
-	return ids
+	var names []string
+	for n := range byName {
+		names = append(names, n)
+	}
+	sort.Strings(names)
+	var out []*propertyv1.QueryRequest
+	for _, n := range names {
+		req := &propertyv1.QueryRequest{Name: n, Limit: 100}
+		for g := range byName[n][0] {
+			req.Groups = append(req.Groups, g)
+		}
+		for id := range byName[n][1] {
+			req.Ids = append(req.Ids, id)
+		}
+		sort.Strings(req.Groups)
+		sort.Strings(req.Ids)
+		out = append(out, req)
+	}
+	return out
 }
 
 func (c *caseCtx) op(f []string) string {
@@ -325,9 +389,12 @@ func (c *caseCtx) op(f []string) string {
 		ts, _ := strconv.ParseInt(f[4], 10, 64)
 		c.setDown(down)
 		req := &propertyv1.ApplyRequest{
-			Property: &propertyv1.Property{Metadata: &commonv1.Metadata{Group: group, Name: propName}, Id: c.id(k), Tags: parseTags(tags)},
+			Property: &propertyv1.Property{Tags: parseTags(tags)},
 			Strategy: propertyv1.ApplyRequest_STRATEGY_MERGE,
 		}
+		kg, kn, kid := c.key(k)
+		req.Property.Metadata = &commonv1.Metadata{Group: kg, Name: kn}
+		req.Property.Id = kid
 		if strat == "R" {
 			req.Strategy = propertyv1.ApplyRequest_STRATEGY_REPLACE
 		}
@@ -346,45 +413,59 @@ func (c *caseCtx) op(f []string) string {
 		return fmt.Sprintf("%s:c%s,n%d", f[0], drv.B01(resp.Created), resp.TagsNum)
 	case "D":
 		c.setDown(f[2])
-		resp, err := srv.Delete(&propertyv1.DeleteRequest{Group: group, Name: propName, Id: c.id(f[1])})
+		kg, kn, kid := c.key(f[1])
+		resp, err := srv.Delete(&propertyv1.DeleteRequest{Group: kg, Name: kn, Id: kid})
 		if err != nil {
 			return "D:ERR"
 		}
 		return "D:" + drv.B01(resp.Deleted)
 	case "Q", "O":
-		req := &propertyv1.QueryRequest{Groups: []string{group}, Name: propName, Ids: c.ids(), Limit: 100}
+		// Q down rr            every key of the case, one request per name
+		// O name tag a|d down  the keys with that name, ordered by tag
+		var reqs []*propertyv1.QueryRequest
 		rr := "1"
 		if f[0] == "Q" {
 			c.setDown(f[1])
 			rr = f[2]
+			reqs = c.requests("")
 		} else {
-			req.OrderBy = &propertyv1.QueryOrder{TagName: f[1], Sort: modelv1.Sort_SORT_ASC}
-			if f[2] == "d" {
-				req.OrderBy.Sort = modelv1.Sort_SORT_DESC
+			c.setDown(f[4])
+			reqs = c.requests(f[1])
+			for _, req := range reqs {
+				req.OrderBy = &propertyv1.QueryOrder{TagName: f[2], Sort: modelv1.Sort_SORT_ASC}
+				if f[3] == "d" {
+					req.OrderBy.Sort = modelv1.Sort_SORT_DESC
+				}
 			}
-			c.setDown(f[3])
 		}
-		if len(req.Ids) == 0 {
+		if len(reqs) == 0 {
 			return f[0] + ":-,rq0"
 		}
-		resp, err := srv.Query(req)
-		if err != nil {
-			srv.DrainRepairQueue(false)
-			return f[0] + ":ERR"
+		all := &propertyv1.QueryResponse{}
+		tasks := 0
+		for _, req := range reqs {
+			resp, err := srv.Query(req)
+			if err != nil {
+				srv.DrainRepairQueue(false)
+				return f[0] + ":ERR"
+			}
+			n, _ := srv.DrainRepairQueue(rr == "1")
+			tasks += n
+			all.Properties = append(all.Properties, resp.Properties...)
 		}
-		n, _ := srv.DrainRepairQueue(rr == "1")
-		return fmt.Sprintf("%s:%s,rq%d", f[0], c.showQuery(resp, f[0] == "O"), n)
+		return fmt.Sprintf("%s:%s,rq%d", f[0], c.showQuery(all, f[0] == "O"), tasks)
 	case "R":
 		src, _ := strconv.Atoi(f[1])
 		dst, _ := strconv.Atoi(f[2])
-		d, err := c.h.reps[src].shard.Latest(group, propName, c.id(f[3]))
+		kg, _, _ := c.key(f[3])
+		d, err := c.latest(src, f[3])
 		if err != nil {
 			return "R:ERR"
 		}
 		if d == nil {
 			return "R:-"
 		}
-		updated, newer, err := c.h.reps[dst].shard.Repair(propertydb.GetPropertyID(d.Property), d.Property, d.DeleteTime)
+		updated, newer, err := c.h.reps[dst].shards[kg].Repair(propertydb.GetPropertyID(d.Property), d.Property, d.DeleteTime)
 		if err != nil {
 			return "R:ERR"
 		}
@@ -395,7 +476,8 @@ func (c *caseCtx) op(f []string) string {
 	case "G":
 		cl, _ := strconv.Atoi(f[1])
 		sv, _ := strconv.Atoi(f[2])
-		return "G:" + c.gossip(c.h.reps[cl].shard, c.h.reps[sv].shard, c.id(f[3]))
+		kg, kn, kid := c.key(f[3])
+		return "G:" + c.gossip(c.h.reps[cl].shards[kg], c.h.reps[sv].shards[kg], kg, kn, kid)
 	case "E", "F":
 		// markers for the check: start / end of an exchange-only phase
 		return f[0] + ":"
@@ -409,7 +491,7 @@ func (c *caseCtx) op(f []string) string {
 
 // gossip mirrors, for ONE leaf, the message flow of repairGossipClient.Rev / repairGossipServer.Repair once the
 // tree comparison has singled the leaf out (repair_gossip.go): the trace lists who repaired and whether it changed.
-func (c *caseCtx) gossip(cl, sv *propertydb.VerifC18Shard, id string) string {
+func (c *caseCtx) gossip(cl, sv *propertydb.VerifC18Shard, group, propName, id string) string {
 	cd, err1 := cl.Latest(group, propName, id)
 	sd, err2 := sv.Latest(group, propName, id)
 	if err1 != nil || err2 != nil {
@@ -421,7 +503,7 @@ func (c *caseCtx) gossip(cl, sv *propertydb.VerifC18Shard, id string) string {
 	// the Merkle leaf of an entity is built from the LAST document of the highest revision (repair.buildTree sorts by
 	// timestamp; observed with two documents of one id, see the M op): equal leaf sha = the tree comparison never
 	// selects this leaf
-	cleaf, sleaf := leafDoc(cl, id), leafDoc(sv, id)
+	cleaf, sleaf := leafDoc(cl, group, propName, id), leafDoc(sv, group, propName, id)
 	if cleaf != nil && sleaf != nil && cleaf.ID == sleaf.ID && cleaf.DeleteTime == sleaf.DeleteTime && proto.Equal(cleaf.Property, sleaf.Property) {
 		return "="
 	}
@@ -466,7 +548,7 @@ func (c *caseCtx) gossip(cl, sv *propertydb.VerifC18Shard, id string) string {
 }
 
 // leafDoc: the last document (search order) among those of the highest revision.
-func leafDoc(sh *propertydb.VerifC18Shard, id string) *propertydb.VerifC18Doc {
+func leafDoc(sh *propertydb.VerifC18Shard, group, propName, id string) *propertydb.VerifC18Doc {
 	docs, err := sh.Docs(group, propName, id)
 	if err != nil {
 		return nil
@@ -483,7 +565,8 @@ func leafDoc(sh *propertydb.VerifC18Shard, id string) *propertydb.VerifC18Doc {
 func (c *caseCtx) latestState(i int) string {
 	var ks []string
 	for _, k := range c.sortedKeys() {
-		d := leafDoc(c.h.reps[i].shard, c.prefix+k)
+		kg, kn, kid := splitKey(k)
+		d := leafDoc(c.h.reps[i].shards[kg], kg, kn, c.prefix+kid)
 		if d == nil {
 			continue
 		}
@@ -496,12 +579,18 @@ func (c *caseCtx) latestState(i int) string {
 // merkle is only meaningful when the shards hold nothing but the keys of this case (the check uses a fresh
 // driver process for its Merkle cases).
 func (c *caseCtx) merkle(a, b int) string {
-	ra, la, err1 := c.h.reps[a].shard.TreeRoot(filepath.Join(c.h.root, "tree-a"))
-	rb, lb, err2 := c.h.reps[b].shard.TreeRoot(filepath.Join(c.h.root, "tree-b"))
-	if err1 != nil || err2 != nil {
-		return fmt.Sprintf("ERR %v %v", err1, err2)
+	same, na, nb := true, 0, 0
+	for _, g := range allGroups {
+		ra, la, err1 := c.h.reps[a].shards[g].TreeRoot(filepath.Join(c.h.root, "tree-a"))
+		rb, lb, err2 := c.h.reps[b].shards[g].TreeRoot(filepath.Join(c.h.root, "tree-b"))
+		if err1 != nil || err2 != nil {
+			return fmt.Sprintf("ERR %v %v", err1, err2)
+		}
+		same = same && ra == rb
+		na += len(la)
+		nb += len(lb)
 	}
-	return fmt.Sprintf("root%s,state%s,leaves%d/%d", drv.B01(ra == rb), drv.B01(c.latestState(a) == c.latestState(b)), len(la), len(lb))
+	return fmt.Sprintf("root%s,state%s,leaves%d/%d", drv.B01(same), drv.B01(c.latestState(a) == c.latestState(b)), na, nb)
 }
 
 func (h *harness) history(f []string) string {
@@ -571,7 +660,7 @@ func (h *harness) dedup(f []string) string {
 		}
 		return strings.Join(parts, ";")
 	}
-	return "simple=" + show(srv.SimpleDedup(group, propName, in), false) + " sorted=" + show(srv.SortedDedup(group, propName, in, desc), true)
+	return "simple=" + show(srv.SimpleDedup(allGroups[0], allNames[0], in), false) + " sorted=" + show(srv.SortedDedup(allGroups[0], allNames[0], in, desc), true)
 }
 
 func main() {
